@@ -214,6 +214,7 @@ pub fn run_c07(tier: Tier) -> i32 {
                                 last_finishes: true,
                                 abandon_after: None,
                                 alphabet: 0,
+                                own_clients: false,
                             });
                         }
                     }
@@ -487,6 +488,7 @@ pub fn configs(prop: HProp, tier: Tier) -> Vec<ChainCfg> {
                             last_finishes,
                             abandon_after,
                             alphabet: H_ABANDON | H_FINISH | H_REORDER,
+                            own_clients: false,
                         });
                     }
                 }
@@ -504,6 +506,7 @@ pub fn configs(prop: HProp, tier: Tier) -> Vec<ChainCfg> {
                 last_finishes,
                 abandon_after,
                 alphabet: H_ABANDON | H_FINISH,
+                own_clients: false,
             };
             out.push(mk(None));
             for k in 0..=(if tier == Tier::Quick { 2 } else { 3 }) {
@@ -525,6 +528,28 @@ pub fn configs(prop: HProp, tier: Tier) -> Vec<ChainCfg> {
                         last_finishes,
                         abandon_after,
                         alphabet: H_ABANDON | H_FINISH | H_GATE,
+                        own_clients: false,
+                    });
+                }
+            }
+        }
+    }
+    // every handle owned by the future that uses it: an abandoned call takes the last handle of
+    // its client with it, and the cancellation must still go out while that dispatch shuts down
+    // (seeded changes C03c/C04c)
+    if prop == HProp::C04 {
+        for depth in 1..=3usize {
+            for last_finishes in [false, true] {
+                for abandon_after in [None, Some(1), Some(2)] {
+                    out.push(ChainCfg {
+                        hops: vec![HopKind::Mem; depth],
+                        r_ns: 10_000_000_000,
+                        tau_ms: vec![0; depth],
+                        regime: Regime::NoSubscriber,
+                        last_finishes,
+                        abandon_after,
+                        alphabet: H_ABANDON | H_FINISH,
+                        own_clients: true,
                     });
                 }
             }
@@ -540,6 +565,7 @@ pub fn configs(prop: HProp, tier: Tier) -> Vec<ChainCfg> {
             last_finishes,
             abandon_after: None,
             alphabet: H_ABANDON | H_FINISH | H_REORDER,
+            own_clients: false,
         });
     }
     out
@@ -574,6 +600,7 @@ pub fn c18_otel_grid(tier: Tier) -> (u64, Vec<(String, String)>) {
                             last_finishes,
                             abandon_after,
                             alphabet: 0,
+                            own_clients: false,
                         };
                         let e = execute_in_place(&cfg, &[]);
                         cells += 1;
